@@ -68,7 +68,10 @@ Fixpoint le_hi (hi : bvec) (x : point) : bool :=
         if upper is not None or lower is not None:
             if upper is None: upper = numpy.inf     -- first member None: LOWER bound +inf
             if lower is None: lower = -numpy.inf    -- second member None: UPPER bound -inf
-    so a pair with exactly one None member makes every point out of bounds. *)
+    so a pair with exactly one None member makes every point out of bounds; the
+    out-of-bounds branch of bounded_function (l.100-103) then indexes the 0-d
+    array of that scalar infinity with a boolean vector, which raises IndexError
+    at the initial evaluation (l.222), before f is ever called. *)
 Inductive bounds := NoBounds | Bounds (first second : option bvec).
 
 Definition in_bounds (b : bounds) (x : point) : bool :=
@@ -164,13 +167,22 @@ Section Wrapper.
   | InitInvalid          (* ValueError: initial parameter values not valid / not finite, l.221-231 *)
   | InitLimit (n : Z)    (* max_evaluations = 0: MaximumEvaluationsReached before the try block *)
   | InitOther            (* f raised a non-arithmetic exception at the initial point *)
+  | InitBoundsError      (* bounds pair with exactly one None member: IndexError, see [bounds] *)
   | Ran (o : outcome) (bf : fv) (bx : point) (n : Z) (seen : list fv)
                          (* the try/finally block ran; get_best() gave (bf, bx, n);
                             o = Done: maximise returns bx (and n); otherwise the exception continues *)
   | Broken.              (* get_best() with no best point *)
 
   (** maximise, l.205-269.  [local]: None / Some true / Some false *)
+  Definition half_bounds (b : bounds) : bool :=
+    match b with
+    | Bounds None (Some _) => true
+    | Bounds (Some _) None => true
+    | _ => false
+    end.
+
   Definition maximise (b : bounds) (local : option bool) (x0 : point) (g l : list act) : final * st :=
+    if half_bounds b then (InitBoundsError, init_st) else
     let '(s1, r) := bounded b init_st x0 in
     match r with
     | RArith => (InitInvalid, s1)
@@ -212,7 +224,7 @@ Definition lf_optimise_result (limit_action : Z) (fin : final) : lf_result :=
   | Ran Done _ _ _ _ => LfReturns
   | Ran (Limit _) _ _ _ _ | InitLimit _ =>
       if limit_action =? 0 then LfReturns else if limit_action =? 1 then LfWarns else LfRaisesArith
-  | Ran Crashed _ _ _ _ | InitOther | Broken => LfRaisesOther
+  | Ran Crashed _ _ _ _ | InitOther | InitBoundsError | Broken => LfRaisesOther
   | InitInvalid => LfRaisesValue
   end.
 
